@@ -29,7 +29,7 @@ FILEMAP = [
     ("src/GMGPolar/level_interpolation.cpp", ["C10"]),
     ("src/GMGPolar/build_rhs_f.cpp", ["C03"]),
     ("src/Level/levelCache.cpp", ["C03"]),
-    ("src/Level/level.cpp", ["C10", "C09", "C20"]),
+    ("src/Level/level.cpp", ["C10", "C09", "C13", "C20"]),
     ("include/Level/level.h", ["C03"]),
     ("src/PolarGrid/polargrid.cpp", ["C17", "C18"]),
     ("src/PolarGrid/multiindex.cpp", ["C17"]),
@@ -39,7 +39,7 @@ FILEMAP = [
     ("include/LinearAlgebra/symmetricTridiagonalSolver.h", ["C14", "C15"]),
     ("include/LinearAlgebra/sparseLUSolver.h", ["C16", "C15"]),
     ("include/LinearAlgebra/vector.h", ["C15"]),
-    ("include/LinearAlgebra/csr_matrix.h", ["C15", "C04"]),
+    ("include/LinearAlgebra/csr_matrix.h", ["C15", "C16", "C04"]),
     ("include/LinearAlgebra/vector_operations.h", ["C12"]),
     ("include/LinearAlgebra/diagonalSolver.h", ["C14", "C15"]),
 ]
